@@ -99,7 +99,7 @@ class C10(common.Prop):
             "12% of cases with nan / inf garbage under the mask; typed stream validated instruction by instruction against the "
             "NumPy reference, plus an ill-typed stream (one corrupted last instruction); every register after every step is "
             "compared (shape of value, shape of mask, mask bits exactly, values within rtol 1e-9 + atol 1e-9, NaN one class, modulo the sign of zero: registers computed from operands in which the two sides hold zeros of different sign are compared on shape and mask only); "
-            "non-trivial = typed program in which a shape-changing operation is followed by another operation")
+            "non-trivial = typed program in which a shape-changing operation is followed by another operation " "PyTorch aftermath: pow_ / add_ / fix_nan on the inputs must not change any computed register, and leave v*v+1 with NaN -> 0 (infinities kept); inputs arrive contiguous, transposed-storage or strided.")
     TRUSTED = ["Coq 8.16.1 kernel", "harness/translate_c10.py (fail-closed ast translator)",
                "extraction: ExtrOcamlBasic, ExtrOCamlFloats, ExtrOCamlInt63; runner/driver.ml",
                "harness/c10_ref.py (NumPy reference interpreter, the oracle), harness/c10_impl.py canonicalisers (errors -> one class, NaN -> one word)"]
